@@ -617,7 +617,7 @@ void rename(const std::string& old_filename, const std::string& new_filename) {
 
 void unlink(const string& filename, bool recursive) {
   if (recursive) {
-    if (isdir(filename)) {
+    if (lisdir(filename)) {
       for (const string& item : list_directory(filename)) {
         unlink(filename + "/" + item, true);
       }
